@@ -22,6 +22,7 @@ fn main() {
         "keys" => drivers::sealed::run_keys(&a),
         "parent" => drivers::parent::run(&a),
         "trees" => drivers::trees::run(&a),
+        "prunedecide" => drivers::prunedecide::run(&a),
         "restore" => drivers::restore::run(&a),
         "roundtrip" => drivers::roundtrip::run(&a),
         "sched" => drivers::sched::run(&a),
